@@ -261,6 +261,12 @@ PENDING_REASON = ("claimed in DESIGN.md but its check is not implemented yet in 
                   "listed here until the check lands")
 
 
+try:
+    ADDENDA = json.load(open(os.path.join(HERE, "checks", "extra_gates.json"))).get("rule_addenda", {})
+except FileNotFoundError:
+    ADDENDA = {}
+
+
 def main():
     props = [json.loads(l) for l in open(os.path.join(HERE, "properties.jsonl"))]
     ids = [p["id"] for p in props]
@@ -282,8 +288,10 @@ def main():
                 "replay_cmd_template": f"./check {pid} --replay {{path}}",
                 "engine": "dask-sim",
                 "level_claimed": {"category": mod.META.get("level", "exploration"),
-                                  "text": c["text"], "design_ref": c["ref"]},
-                "level_note": c["note"],
+                                  "text": c["text"],
+                                  "design_ref": c["ref"] + "; current workload: DESIGN.md §12.10"},
+                "level_note": c["note"] + " What one evaluation generates now: " + mod.META["rule"]
+                + ("; later additions: " + ADDENDA[pid] if pid in ADDENDA else ""),
                 "technique": c["technique"],
             })
         elif pid in NA:
